@@ -651,10 +651,10 @@ func init() {
 			"distinct_nontrivial = distinct (layer, format, style, #chunks class, transport, workers) with at least 2 chunks (layers 1-2) or distinct (format, transport, chunk size, size class) command runs (layer 3)",
 		Assume: []string{"well-formed input as defined in DESIGN.md Appendix A.4 (no blank lines inside files, no empty sequences, flat-file lines <= 100 columns)", "b = 1 is excluded (the reader cannot progress with a one-byte buffer; production buffers are >= 1 MiB)"},
 		Subs: []core.Sub{
-			{Name: "chunk", N: core.Const(48, 320), Run: runChunk},
-			{Name: "reader", N: core.Const(192, 1920), Run: runReader, Race: true, NRace: core.Const(48, 192)},
-			{Name: "e2e", N: core.Const(16, 96), Run: runE2E},
-			{Name: "e2e-asan", N: core.Const(8, 64), Run: runE2EAsan, TimeoutS: 3000},
+			{Name: "chunk", N: core.Const(48, 960), Run: runChunk},
+			{Name: "reader", N: core.Const(192, 7680), Run: runReader, Race: true, NRace: core.Const(48, 192)},
+			{Name: "e2e", N: core.Const(16, 384), Run: runE2E},
+			{Name: "e2e-asan", N: core.Const(8, 128), Run: runE2EAsan, TimeoutS: 3000},
 			{Name: "bigfile", N: core.Const(2, 4), Run: runBig, Serial: false, TimeoutS: 1800},
 		},
 		Cmds:          []string{"obiconvert"},
